@@ -9,7 +9,7 @@ of higher rank (k < a < b < c < d), so every state is a DAG; bodies are independ
 can have byte-identical contents (the class behind the XOR defect).
 
 Item (replay) = {"mode": "Serial"|"OpenMP", "init": {...}, "steps": [...]}, steps:
-  ["set", f, content]  ["copy", src, dst]  ["swap", x, y]  ["addinc", f, target, pos]  ["rminc", f, idx]
+  ["set", f, content]  ["bump", f, n] (change one statement of f)  ["copy", src, dst]  ["swap", x, y]  ["addinc", f, target, pos]  ["rminc", f, idx]
   ["revert", i]  (i-th snapshot; a snapshot is taken at every build)   ["build", "file"|"string"]
 A step that would break the rank rule is a no-op (same decision in generation and in replay).
 Oracle at every build (a fresh w_build process, shared cache directory): exit 0 and out[0] == value computed from the
@@ -107,6 +107,7 @@ class History:
         self.build_after_edit_after_build = 0
         self.graph_or_revert = 0
         self.equal_contents_builds = 0
+        self.nested_only_rebuilds = 0
         for f in FILES:
             self._write(f)
 
@@ -132,6 +133,17 @@ class History:
             _, f, content = step
             if content_ok(f, content):
                 self._set(f, content)
+        elif op == "bump":
+            # change one statement of one file and nothing else: replace its first statement (or add one in front)
+            _, f, n = step
+            c = copy.deepcopy(self.files[f])
+            idx = [i for i, it in enumerate(c) if it[0] == "s"]
+            if idx:
+                c[idx[0]] = ["s", n if c[idx[0]][1] != n else n % 3 + 1]
+            else:
+                c.insert(0, ["s", n])
+            if content_ok(f, c):
+                self._set(f, c)
         elif op == "copy":
             _, s, d = step
             if s != d and content_ok(d, self.files[s]):
@@ -182,6 +194,11 @@ class History:
         self.builds += 1
         if self.snapshots and self.edits_since_build:
             self.build_after_edit_after_build += 1
+            prev = self.snapshots[-1]
+            changed = [f for f in FILES if prev[f] != self.files[f]]
+            direct = set(it[1] for it in prev["k"] if it[0] == "i")
+            if changed and all(f in reachable(prev) and f not in direct and f != "k" for f in changed):
+                self.nested_only_rebuilds += 1
         reach = sorted(reachable(self.files) - {"k"})
         if len(set(json.dumps(self.files[f]) for f in reach)) < len(reach):
             self.equal_contents_builds += 1
@@ -217,6 +234,8 @@ class History:
             c.append("graph-change-or-revert")
         if self.equal_contents_builds:
             c.append("build-with-two-reachable-headers-equal")
+        if self.nested_only_rebuilds:
+            c.append("rebuild-after-editing-only-nested-headers")
         for s in set(s[0] + (":" + s[1] if s[0] == "build" else "") for s in self.steps):
             c.append("op:" + s)
         return c
@@ -265,7 +284,8 @@ def make_machine(ctx, stats, last):
             super().__init__()
             self.h = None
 
-        @initialize(mode=st.sampled_from(["Serial", "OpenMP"]), kb=st.booleans(), ab=st.booleans())
+        @initialize(mode=st.sampled_from(["Serial", "OpenMP"]), kb=st.sampled_from([False, False, True]),
+                    ab=st.sampled_from([True, True, False]))
         def init(self, mode, kb, ab):
             self.h = History(ctx, mode, {"k_includes_b": kb, "a_includes_b": ab})
 
@@ -299,6 +319,14 @@ def make_machine(ctx, stats, last):
             if f == "k" and not any(it[0] == "i" for it in content):
                 content = [["i", "a"]] + content
             self._do(["set", f, content])
+
+        # single-file edit immediately followed by a build: the only change since the previous build is one header
+        # (possibly one that is reachable only through another header)
+        @precondition(lambda self: self.h is not None and self.h.builds < MAX_BUILDS)
+        @rule(f=headers, n=st.integers(1, 3), kind=st.sampled_from(["file", "file", "string"]))
+        def bump_then_build(self, f, n, kind):
+            self._do(["bump", f, n])
+            self._do(["build", kind])
 
         @rule(s=headers, d=headers)
         def copy_content(self, s, d):
@@ -364,7 +392,7 @@ class Spec:
 
 
 RULE = ("case = history (<= 30 steps quick / 50 thorough, <= 8 builds) over the files k.okl, a.h, b.h, c.h, d.h: set a file to a content "
-        "from a small alphabet, copy one header's content to another (equal contents), swap two headers, add/remove an #include "
+        "from a small alphabet, change a single statement of one header and build at once, copy one header's content to another (equal contents), swap two headers, add/remove an #include "
         "line (direct or nested), revert to the snapshot of an earlier build, build+run in a fresh process (file- or string-built "
         "OKL kernel, Serial or OpenMP) sharing one cache directory; every build must exit 0 and write the value computed from the "
         "current contents. Non-trivial = history with a build that follows an edit that follows a build and at least one revert or "
